@@ -51,6 +51,7 @@ class LeanStatus:
         self.forbidden_hits = []
         self.axioms = {}  # theorem -> list of axioms or None (missing)
         self.audit_log = ""
+        self.leanchecker = None  # thorough tier: verdict of the independent re-checker on the property's modules
 
 
 def _lock():
@@ -114,12 +115,24 @@ def obligations_for(pid: str):
     return e.get("theorems", []), e.get("partial", []), e.get("imports", [])
 
 
-def audit_axioms(st: LeanStatus, pid: str):
+def audit_axioms(st: LeanStatus, pid: str, tier: str = "quick"):
     thms, _partial, imports = obligations_for(pid)
     if not st.build_ok:
         for t in thms:
             st.axioms[t] = None
         return
+    if tier == "thorough":
+        # the toolchain's independent re-checker replays the compiled declarations of the property's modules in the kernel
+        try:
+            p = subprocess.run(["lake", "env", "leanchecker"] + list(imports or ["CSSVerif"]), cwd=LEAN, capture_output=True, text=True, timeout=1800)
+            st.leanchecker = "ok" if p.returncode == 0 else ("FAILED: " + (p.stdout + p.stderr)[-1500:])
+        except Exception as exc:  # noqa: BLE001
+            st.leanchecker = f"FAILED: {exc!r}"
+        if st.leanchecker != "ok":
+            st.audit_log = st.leanchecker
+            for t in thms:
+                st.axioms[t] = None
+            return
     src = "".join(f"import {m}\n" for m in (imports or ["CSSVerif"]))
     src += "".join(f"#print axioms {t}\n" for t in thms)
     os.makedirs(WORK, exist_ok=True)
@@ -315,7 +328,9 @@ def finish(pid, tier, seed, t0, st: LeanStatus, res: Result, search_fn=None, lev
     cov = {
         "obligations": len(thms),
         "discharged": len(discharged),
-        "checker_cmd": f"cd lean && lake build && lake env lean <audit: #print axioms of {len(thms)} theorems> && lake env lean --run Driver/*.lean",
+        "checker_cmd": f"cd lean && lake build && lake env lean <audit: #print axioms of {len(thms)} theorems>"
+                       + (f" && lake env leanchecker <modules> ({st.leanchecker})" if getattr(st, "leanchecker", None) else "")
+                       + " && lake env lean --run Driver/*.lean",
         "trusted_base": TRUSTED_BASE,
         "theorems": {t: st.axioms.get(t) for t in thms},
         "partial_theorems": partial,
